@@ -14,6 +14,7 @@ import (
 	"path/filepath"
 	"time"
 
+	"github.com/usnistgov/dastard/lancero"
 	"github.com/usnistgov/dastard/packets"
 	"gonum.org/v1/gonum/mat"
 )
@@ -22,6 +23,7 @@ import (
 
 // VerifC19Lancero is a LanceroSource whose devices have no card behind them.
 type VerifC19Lancero struct {
+	Lsync   int // line period written to cringeGlobals.json and given to simulated cards (0: 40)
 	LS      *LanceroSource
 	tmpdir  string
 	oldPath string
@@ -56,8 +58,12 @@ func (v *VerifC19Lancero) Close() {
 // LanceroSource.Configure and remembers its error the way SourceControl.ConfigureLanceroSource does.
 func (v *VerifC19Lancero) Configure(active []int, nsamp, seqln, firstRow, sepCards, sepCols int) error {
 	path := filepath.Join(v.tmpdir, "cringeGlobals.json")
-	js := fmt.Sprintf(`{"SETT":10,"seqln":%d,"lsync":40,"testpattern":0,"propagationdelay":0,"NSAMP":%d,"carddelay":0,"XPT":0}`,
-		seqln, nsamp)
+	lsync := v.Lsync
+	if lsync <= 0 {
+		lsync = 40
+	}
+	js := fmt.Sprintf(`{"SETT":10,"seqln":%d,"lsync":%d,"testpattern":0,"propagationdelay":0,"NSAMP":%d,"carddelay":0,"XPT":0}`,
+		seqln, lsync, nsamp)
 	if err := os.WriteFile(path, []byte(js), 0o644); err != nil {
 		return err
 	}
@@ -92,6 +98,29 @@ func (v *VerifC19Lancero) SampleDouble(geom [][2]int) error {
 	ls.updateChanOrderMap()
 	return nil
 }
+
+// InstallCards plugs a simulated card (lancero.NoHardware) streaming geom[i] = (ncols, nrows) into the i-th
+// active device: what the hardware delivers from now on. The real LanceroSource.Sample can then be used.
+func (v *VerifC19Lancero) InstallCards(geom [][2]int) error {
+	lsync := v.Lsync
+	if lsync <= 0 {
+		lsync = 40
+	}
+	for i, device := range v.LS.active {
+		if i >= len(geom) {
+			break
+		}
+		lan, err := lancero.NewNoHardware(geom[i][0], geom[i][1], lsync)
+		if err != nil {
+			return err
+		}
+		device.card = lan
+	}
+	return nil
+}
+
+// ConfigRefused tells whether the last Configure failed (configError set, as SourceControl does).
+func (v *VerifC19Lancero) ConfigRefused() bool { return v.LS.configError != nil }
 
 // VerifC19LanceroState is the part of the source object that outlives one run.
 type VerifC19LanceroState struct {
